@@ -211,7 +211,7 @@ type AppOp struct {
 	Opt      string `json:"opt,omitempty"` // "", nocompress, preencoded
 	CB       bool   `json:"cb,omitempty"`
 	UseWrite bool   `json:"write,omitempty"`
-	Chars    string `json:"chars,omitempty"` // padding character class (payloadForC); text messages only
+	Chars    string `json:"chars,omitempty"`  // padding character class (payloadForC); text messages only
 	SlowMs   int    `json:"slowMs,omitempty"` // binary messages only: the data is handed over as an io.Reader whose first Read takes that long
 }
 
